@@ -399,9 +399,9 @@ def r3c_syscalls(ctx, prog):
             r.ok(q, site, '%d paths, all return false' % len(called), file=f['file'], line=f['line'])
 
 
-def r1c_fresh_holders(ctx, prog):
+def r1c_fresh_holders(ctx, prog, rule_id='C05.R1c'):
     """Readers of container kinds (mechanism set, attribute map) only insert into their out-parameter: every call site must hand them a holder that is fresh for this record."""
-    r = ctx.rule('C05.R1c', 'container values are read into a holder that is empty for each record (the container readers only insert)', floor=3, engine='E2')
+    r = ctx.rule(rule_id, 'container values are read into a holder that is empty for each record (the container readers only insert)', floor=3, engine='E2')
     readers = {}
     for name in ('readMechanismTypeSet', 'readAttributeMap'):
         for f in prog.fns('File::' + name):
